@@ -71,6 +71,13 @@ q3 = [(4, 4, 4), (3, 4, 8), (8, 8, 8)]
 for sh in all_shapes(3):
     for ms in q3:
         send_q.append([3, sh, masks_of(ms), 0, 0])
+# whoppers on flavors that are not neighbours in the precedence list (a flavor with only daemons, or with
+# nothing for the message, in between): continue-whopper has to find the next whopper across the gap
+chain3 = shape_of([[], [0], [1]])
+gap = [[3, chain3, masks_of((9, 2, 8)), 0, -1], [3, chain3, masks_of((8, 1, 8)), 0, 0], [3, chain3, masks_of((9, 0, 8)), 0, 0],
+       [3, shape_of([[], [], [0, 1]]), masks_of((2, 9, 8)), 0, 0], [4, wide4, masks_of((8, 6, 9, 0)), 0, 0],
+       [4, chain4, masks_of((9, 4, 2, 8)), 0, 0], [4, wide4, masks_of((8, 0, 0, 9)), 0, 1]]
+send_q += gap
 # :init (vanilla-flavor's primary is part of the table), every order
 for sh in conn3:
     for ms in [(2, 2, 0), (1, 0, 2)]:
